@@ -5,6 +5,7 @@ package main
 import (
 	"fmt"
 	"go/ast"
+	"go/parser"
 	"go/types"
 	"os"
 	"path/filepath"
@@ -29,6 +30,7 @@ type Engine struct {
 	gfacts   map[string][]*Term // facts about global constants, by const name
 	errRoots map[string]IfaceV  // opaque error sentinels by qualified name
 	trusted  map[string]bool
+	lemmasUsed map[string]bool
 }
 
 type initInfo struct {
@@ -66,7 +68,7 @@ func loadEngine(repo string) (*Engine, error) {
 		}
 	}
 	e := &Engine{repo: repo, pkgs: pkgs, prog: prog, cs: newContractSet(), funcs: map[string]*ssa.Function{}, fnKey: map[*ssa.Function]string{},
-		allPkgs: map[string]*packages.Package{}, initExpr: map[*types.Var]initInfo{}, globals: map[*types.Var]Value{}, gfacts: map[string][]*Term{}, errRoots: map[string]IfaceV{}, trusted: map[string]bool{}}
+		allPkgs: map[string]*packages.Package{}, initExpr: map[*types.Var]initInfo{}, globals: map[*types.Var]Value{}, gfacts: map[string][]*Term{}, errRoots: map[string]IfaceV{}, trusted: map[string]bool{}, lemmasUsed: map[string]bool{}}
 	packages.Visit(pkgs, nil, func(p *packages.Package) { e.allPkgs[p.PkgPath] = p })
 	for _, p := range e.allPkgs {
 		if p.TypesInfo == nil {
@@ -410,4 +412,27 @@ func (e *Engine) errnoIs(errno *Term, target IfaceV) *Term {
 // specBuiltin: spec functions implemented in the engine (paths etc.); see speclib.go.
 func (e *Engine) specBuiltin(env *Env, name string, n *ast.CallExpr) (tv, bool) {
 	return specLib(e, env, name, n)
+}
+
+// syncMapV is the ghost (dom, val) view of a sync.Map located at addr.
+func (e *Engine) syncMapV(spec *SyncMapSpec, addr *Term) mapV {
+	env := &Env{eng: e, pkg: e.typesPkg(spec.Pkg), vars: map[string]tv{}}
+	kx, err := parser.ParseExpr(spec.Key)
+	if err != nil {
+		panic(err)
+	}
+	kt := env.resolveType(kx)
+	if kt == nil {
+		panic("syncmap: unknown key type " + spec.Key)
+	}
+	return mapV{Name: "SM|" + shortType(spec.Pkg+"."+spec.Field), Addr: addr, KeyT: kt, ValT: types.NewInterfaceType(nil, nil)}
+}
+
+func (e *Engine) syncMapValType(spec *SyncMapSpec) types.Type {
+	env := &Env{eng: e, pkg: e.typesPkg(spec.Pkg), vars: map[string]tv{}}
+	vx, err := parser.ParseExpr(spec.Val)
+	if err != nil {
+		panic(err)
+	}
+	return env.resolveType(vx)
 }
